@@ -26,7 +26,8 @@ def _reply(rng, kind, text, k):
     def empties(): return ["E"] * rng.choice([0, 0, 0, 1, 2, 99, 100])
     if kind == "c":
         return ["E"] + empties() + [("L", "OK")], None
-    data = "D%d,%d" % (k, rng.randint(0, 999))
+    # the data line: usually text; sometimes blank (an unnamed board answers QT with an empty line) or only blanks
+    data = rng.choice(["D%d,%d" % (k, rng.randint(0, 999))] * 6 + ["", " ", "OK", "0"])
     nm = text.split(",")[0].strip().lower()
     ev = ["E"] + empties() + [("L", data)]
     if nm not in NOOK:
